@@ -256,3 +256,19 @@ def r3(ctx):
         yield VIOL("C16-R3", "authenticator/timestamp-type", "request_timestamp has type %s" % fty.get("request_timestamp"), where=None)
     else:
         yield PASS("C16-R3", "authenticator/timestamp-type", "SigV4Authenticator.request_timestamp: DateTime<Utc>", [])
+
+
+@M.rule("C16-R4", "a malformed timestamp yields the format error, never a panic: every panic-capable construct of the parser is discharged (shared with C08-R1)")
+def r4(ctx):
+    import c08
+    from registry import Ctx
+
+    sub = Ctx(ctx.facts, None, ctx.tier, ctx.repo)
+    res = [r for r in c08.r1(sub) if "parse_from_iso8601" in r.key or r.rule == "C08-R1" and r.status == "PASS"]
+    n = 0
+    for r in res:
+        if r.status != "PASS" and "parse_from_iso8601" not in r.key:
+            continue
+        r.rule = "C16-R4"
+        n += 1
+        yield r
